@@ -73,8 +73,9 @@ def _scene(name):
             img += Gaussian2D(30, x, y, 1.6, 1.6)(xx, yy)
         segm = detect_sources(img, 1.0, npixels=4)
         mask = None
-    err = np.full(img.shape, 0.1)
-    bkg = np.full(img.shape, 0.01)
+    # non-uniform maps: a mis-registered cutout must change the numbers
+    err = (0.1 + 0.002 * np.arange(img.shape[1])[None, :] + 0.003 * np.arange(img.shape[0])[:, None])
+    bkg = (0.01 + 0.0003 * np.arange(img.shape[1])[None, :] + 0.0002 * np.arange(img.shape[0])[:, None])
 
     def make():
         return SourceCatalog(img, SegmentationImage(segm.data.copy()),
@@ -93,7 +94,7 @@ def _stats_scene():
     img = (Gaussian2D(50, 10, 9, 2.0, 1.2, theta=0.3)(xx, yy)
            + Gaussian2D(30, 22, 20, 1.5, 2.5, theta=1.0)(xx, yy)
            + np.random.default_rng(2).normal(0, 0.1, (30, 32)))
-    err = np.full(img.shape, 0.2)
+    err = (0.2 + 0.004 * np.arange(img.shape[1])[None, :] + 0.003 * np.arange(img.shape[0])[:, None])
     mask = np.zeros(img.shape, bool)
     mask[8:10, 10:13] = True
     pos = [(10.2, 9.1), (22.0, 20.3), (-40.0, -40.0), (30.5, 3.0)]
